@@ -121,12 +121,14 @@ def search(ck, binpath, n, corpus):
         args += ["--corpus", corpus]
     rc, out, err = ck.run_bin(binpath, args, timeout=3000)
     if rc != 0:
-        ck.tie_broken("harness c27 search failed (rc=%s)" % rc, err[-3000:])
-        return
+        ck.tie_broken("harness c27 search failed (rc=%s)" % rc, err[-3000:])   # partial output is still used below
     for l in out.splitlines():
         if not l.strip():
             continue
-        v = json.loads(l)
+        try:
+            v = json.loads(l)
+        except ValueError:
+            continue
         if "summary" in v:
             ck.cov["distribution"]["search"] = v["summary"]
             ck.add_measured(v["summary"]["cases"], v["summary"]["distinct_nontrivial"])
